@@ -23,3 +23,9 @@ open Lungo.C05
 #print axioms cut_base
 #print axioms run_post
 #print axioms step_inv
+#print axioms search_ce_sound
+#print axioms search_ce_image
+#print axioms search_expected_safe_0
+#print axioms search_expected_safe_1
+#print axioms search_expected_safe_2
+#print axioms search_expected_safe
